@@ -71,6 +71,7 @@ func counterKey(cc *ssa.CallCommon) (string, bool, bool) {
 }
 
 func runC10(c *Ctx) {
+	defer c10RetryAbort(c)
 	c.Rule("C10.PAIR", "every increment is paired with its decrement by one recognised idiom; no orphan decrement", 30)
 	c.Rule("C10.ONCE", "the events the pairings rely on are delivered at most once (stream destroy CAS, connection close CAS, clean CAS)", 4)
 	c.Rule("C10.IDENT", "one counter object per cluster across updates: increments and decrements of one admission hit the same resource manager", 3)
@@ -628,4 +629,47 @@ func rootsAtParam(v ssa.Value, p *ssa.Parameter) bool {
 		}
 	}
 	return false
+}
+
+// c10RetryAbort (PAIR, retries breaker): a granted retry that is not sent gives its slot back.
+// retryState.retry() takes a slot of the cluster's retries resource when it grants a retry; doRetry then either sends the
+// retry (the slot stays held until the next decision or the end of the request releases it) or gives up (no host / no
+// pool). The give-up path answers the client itself, and processError then drops retryState (a locally answered request
+// is never retried) - after which the end-of-request cleanup no longer sees the slot. Clause: every path through doRetry
+// that does not reach the send (upstreamRequest.appendHeaders) calls cleanUp() or retryState.reset().
+func c10RetryAbort(c *Ctx) {
+	fn := c.M("pkg/proxy", "downStream", "doRetry")
+	if fn == nil {
+		c.Unresolved("C10.PAIR", "downStream.doRetry")
+		return
+	}
+	isSend := func(in ssa.Instruction) bool {
+		ci, ok := in.(ssa.CallInstruction)
+		if !ok {
+			return false
+		}
+		f := ci.Common().StaticCallee()
+		return f != nil && f.Name() == "appendHeaders" && strings.Contains(f.String(), "upstreamRequest")
+	}
+	isRelease := func(in ssa.Instruction) bool {
+		ci, ok := in.(ssa.CallInstruction)
+		if !ok {
+			return false
+		}
+		switch methodName(ci.Common()) {
+		case "cleanUp":
+			return true
+		case "reset":
+			f := ci.Common().StaticCallee()
+			return f != nil && strings.Contains(f.String(), "retryState")
+		}
+		return false
+	}
+	nsend := len(instrsWhere(fn, isSend))
+	bad := existsPath(fn, nil, isReturn, func(in ssa.Instruction) bool { return isSend(in) || isRelease(in) })
+	pos := fn.Pos()
+	if bad != nil {
+		pos = bad.Pos()
+	}
+	c.Check("C10.PAIR", funcKey(fn)+":retry-abort-releases-slot", pos, bad == nil && nsend == 1, "every path that does not send the retry releases the retry slot (cleanUp / retryState.reset)", "doRetry can give up without releasing the retries-breaker slot taken when the retry was granted: the locally answered request drops its retry state, the end-of-request cleanup no longer sees the slot, and after max_retries such requests the breaker stays tripped while the proxy is idle")
 }
